@@ -169,10 +169,32 @@ pub fn install_panic_hook() {
 }
 
 /// Run `f`; a panic inside it is returned as `Err(PanicRec)` instead of unwinding further.
+/// Odd while the watched (main worker) thread is inside an outermost guarded library call; the watchdog samples it.
+pub static GUARD_SEQ: AtomicU64 = AtomicU64::new(0);
+static WATCHED_THREAD: AtomicUsize = AtomicUsize::new(0);
+
+fn on_watched_thread() -> bool {
+    #[cfg(miri)]
+    {
+        false
+    }
+    #[cfg(not(miri))]
+    {
+        WATCHED_THREAD.load(Ordering::Relaxed) == unsafe { libc::pthread_self() } as usize
+    }
+}
+
 pub fn guard<T>(f: impl FnOnce() -> T) -> Result<T, PanicRec> {
     let prev = IN_GUARD.with(|g| g.replace(true));
+    let outermost = !prev && on_watched_thread();
+    if outermost {
+        GUARD_SEQ.fetch_add(1, Ordering::SeqCst);
+    }
     LAST_PANIC.with(|l| *l.borrow_mut() = None);
     let r = panic::catch_unwind(AssertUnwindSafe(f));
+    if outermost {
+        GUARD_SEQ.fetch_add(1, Ordering::SeqCst);
+    }
     IN_GUARD.with(|g| g.set(prev));
     match r {
         Ok(v) => Ok(v),
@@ -216,6 +238,23 @@ static WD_CASE_BYTES: Mutex<Vec<u8>> = Mutex::new(Vec::new());
 
 pub const EXIT_CPU_WATCHDOG: i32 = 97;
 
+static CUR_IDX: AtomicU64 = AtomicU64::new(0);
+static CUR_FAM_HASH: AtomicU64 = AtomicU64::new(0);
+static CUR_FAM: Mutex<String> = Mutex::new(String::new());
+
+/// Remember which case the worker is executing (for the watchdog's dump); cheap when the family does not change.
+pub fn set_case(family: &str, idx: u64) {
+    CUR_IDX.store(idx, Ordering::Relaxed);
+    let h = family.len() as u64 * 131 + family.as_bytes().first().copied().unwrap_or(0) as u64 * 31 + family.as_bytes().last().copied().unwrap_or(0) as u64;
+    if CUR_FAM_HASH.load(Ordering::Relaxed) != h {
+        if let Ok(mut f) = CUR_FAM.lock() {
+            f.clear();
+            f.push_str(family);
+        }
+        CUR_FAM_HASH.store(h, Ordering::Relaxed);
+    }
+}
+
 /// Called by the worker thread before a monitored case (cheap unless `with_bytes`).
 pub fn wd_begin(tag: &str, bytes: Option<&[u8]>) {
     #[cfg(miri)]
@@ -255,6 +294,7 @@ pub fn wd_end() {
 #[cfg(not(miri))]
 pub fn spawn_cpu_watchdog(limit_s: f64, dump_path: String) {
     let worker = unsafe { libc::pthread_self() } as usize;
+    WATCHED_THREAD.store(worker, Ordering::SeqCst);
     std::thread::Builder::new()
         .name("verif-watchdog".into())
         .spawn(move || {
@@ -263,29 +303,38 @@ pub fn spawn_cpu_watchdog(limit_s: f64, dump_path: String) {
             if rc != 0 {
                 return;
             }
-            loop {
-                std::thread::sleep(std::time::Duration::from_millis(200));
-                let start = WD_CASE_START_NS.load(Ordering::SeqCst);
-                if start == u64::MAX {
-                    continue;
-                }
+            let cpu_now = || {
                 let mut ts: libc::timespec = unsafe { std::mem::zeroed() };
                 unsafe { libc::clock_gettime(clk, &mut ts) };
-                let now = ts.tv_sec as u64 * 1_000_000_000 + ts.tv_nsec as u64;
-                if now > start && (now - start) as f64 / 1e9 > limit_s {
-                    // still the same case?
-                    if WD_CASE_START_NS.load(Ordering::SeqCst) != start {
+                ts.tv_sec as u64 * 1_000_000_000 + ts.tv_nsec as u64
+            };
+            // one guarded library call (GUARD_SEQ odd and unchanged) may burn at most `limit_s` seconds of CPU
+            let mut last_seq = u64::MAX;
+            let mut cpu_at_first_seen = 0u64;
+            loop {
+                std::thread::sleep(std::time::Duration::from_millis(200));
+                let seq = GUARD_SEQ.load(Ordering::SeqCst);
+                let now = cpu_now();
+                if seq % 2 == 0 || seq != last_seq {
+                    last_seq = seq;
+                    cpu_at_first_seen = now;
+                    continue;
+                }
+                if now > cpu_at_first_seen && (now - cpu_at_first_seen) as f64 / 1e9 > limit_s {
+                    if GUARD_SEQ.load(Ordering::SeqCst) != seq {
                         continue;
                     }
                     let tag = WD_CASE_TAG.lock().map(|t| t.clone()).unwrap_or_default();
                     let bytes = WD_CASE_BYTES.lock().map(|t| t.clone()).unwrap_or_default();
+                    let fam = CUR_FAM.lock().map(|t| t.clone()).unwrap_or_default();
+                    let idx = CUR_IDX.load(Ordering::Relaxed);
                     let hex: String = bytes.iter().map(|b| format!("{:02x}", b)).collect();
                     let j = serde_json::json!({
-                        "kind": "cpu_watchdog", "case": tag, "bytes": hex,
-                        "cpu_s": (now - start) as f64 / 1e9, "limit_s": limit_s
+                        "kind": "cpu_watchdog", "case": tag, "bytes": hex, "family": fam, "idx": idx,
+                        "cpu_s": (now - cpu_at_first_seen) as f64 / 1e9, "limit_s": limit_s
                     });
                     let _ = std::fs::write(&dump_path, j.to_string());
-                    eprintln!("[watchdog] case {} exceeded {} s of CPU; aborting shard", tag, limit_s);
+                    eprintln!("[watchdog] a single guarded library call in case {}:{} exceeded {} s of CPU; aborting shard", fam, idx, limit_s);
                     std::process::exit(EXIT_CPU_WATCHDOG);
                 }
             }
